@@ -794,6 +794,38 @@ impl DiscoveryDB {
       .collect()
   }
 
+  // All the writers we know a participant to have, with its default locators,
+  // like update_publication() returns them.
+  pub fn writers_of_participant(&self, participant: GuidPrefix) -> Vec<DiscoveredWriterData> {
+    let (unicast, multicast) = self.default_locators_of(participant);
+    self
+      .external_topic_writers
+      .range(participant.range())
+      .map(|(_guid, dwd)| DiscoveredWriterData {
+        writer_proxy: WriterProxy::from(RtpsWriterProxy::from_discovered_writer_data(
+          dwd, &unicast, &multicast,
+        )),
+        ..dwd.clone()
+      })
+      .collect()
+  }
+
+  // All the readers we know a participant to have, with its default locators,
+  // like update_subscription() returns them.
+  pub fn readers_of_participant(&self, participant: GuidPrefix) -> Vec<DiscoveredReaderData> {
+    let (unicast, multicast) = self.default_locators_of(participant);
+    self
+      .external_topic_readers
+      .range(participant.range())
+      .map(|(_guid, drd)| DiscoveredReaderData {
+        reader_proxy: ReaderProxy::from(RtpsReaderProxy::from_discovered_reader_data(
+          drd, &unicast, &multicast,
+        )),
+        ..drd.clone()
+      })
+      .collect()
+  }
+
   fn default_locators_of(&self, participant: GuidPrefix) -> (Vec<Locator>, Vec<Locator>) {
     self
       .find_participant_proxy(participant)
